@@ -654,8 +654,19 @@ func runCase(id int, cs *caseSpec, emit func(string)) error {
 				emit(cmdLine)
 			}
 		}
-		emit(obsLine(in, got, st, w.crashed))
+		ol := obsLine(in, got, st, w.crashed)
+		emit(ol)
 		emit(fmt.Sprintf("TAB %s %s %s %d %s", ribTable(), fibTable(), stratTable(), table.CsCapacity(), facesTable(in)))
+		if strings.HasPrefix(ol, "OBS ctl 200 ") && len(final) > 3 && final[2].String() == "cs" && final[3].String() == "config" {
+			// the effect of an accepted cs/config, not its echo: the real Content Store (created at start-up) must now hold
+			// min(packets stored, configured capacity) entries after further insertions
+			size, stored, capacity := w.csProbe(12)
+			want := stored
+			if capacity < want {
+				want = capacity
+			}
+			emit(fmt.Sprintf("CSPROBE size=%d want=%d stored=%d capacity=%d", size, want, stored, capacity))
+		}
 		if bad := lookupMismatches(); len(bad) > 0 {
 			emit("LPMBAD " + strings.Join(bad, "+"))
 		}
